@@ -110,35 +110,9 @@ def check_gap(facts, chk, rule='C03.gap'):
 
 
 def check_fasta(facts, chk, rule='C03.fasta'):
-    def go():
-        wf = facts.fn(MSA + '::write_fasta')
-        eb = ExprBuilder(wf)
-        vi = facts.field_index(MSA, 'variants')
-        ni = facts.field_index(MSA, 'names')
-        zp = [(bb, t) for bb, t in wf.calls() if (t.callee.name or '').endswith('Iterator::zip')]
-        if len(zp) != 1:
-            raise AnchorLost('write_fasta: %d zip calls' % len(zp))
-        a = eb.operand(zp[0][1].args[0])
-        b = eb.operand(zp[0][1].args[1])
-        names_first = any(x[0] == 'field' and x[2] == ni for x in subexprs(a))
-        rows = any(x[0] == 'call' and x[1].endswith('outer_iter') for x in subexprs(b))
-        # the array iterated is assigned from the transpose of variants
-        asg = [(bb, t) for bb, t in wf.calls() if (t.callee.name or '').endswith('::assign')]
-        tr = False
-        for bb, t in asg:
-            src = eb.operand(t.args[1])
-            if any(x[0] == 'call' and x[1].endswith('::t') and any(y[0] == 'field' and y[2] == vi for y in subexprs(x)) for x in subexprs(src)):
-                tr = True
-        reorder = [t.callee.name for _, t in wf.calls() if any(k in (t.callee.name or '') for k in ('sort', 'rev', 'shuffle', 'permute', 'swap'))]
-        return names_first and rows, tr, reorder, zp[0][1].span
-    r = chk.guard(rule, rule + ':write_fasta', go)
-    if r is not None:
-        zipped, tr, reorder, sp = r
-        if zipped and tr and not reorder:
-            chk.ok(rule, rule + ':write_fasta', sp, 'names zipped with outer_iter of the transposed variants; no reordering call')
-        else:
-            chk.violation(rule, rule + ':write_fasta', where=sp,
-                          detail='names zipped with rows=%s, rows come from variants.t()=%s, reordering calls=%s' % (zipped, tr, reorder))
+    """write_fasta interpreted on small tables: record i = (names[i], column i).  (Was a shape rule on zip/outer_iter/t().)"""
+    from . import tableops
+    tableops.check_write_fasta(facts, chk, rule)
 
 
 def run(facts, chk, tier, only=None):
